@@ -63,7 +63,8 @@ def run_section(body, n_pages):
             return [NS(tag="page%d" % i, data=NS(height=1, width=1)) for i in range(n_pages)]
     def mk(nm):
         return type("Rec_" + nm, (RecStrategy,), {"name": nm})
-    def post(pages, processed, rtf_body):
+    def post(pages, processed, rtf_body=None, **kw):
+        # tolerant recorder: a refactoring may pass the body's grouping settings instead of the body itself
         seen["post"] = (list(pages), processed, rtf_body)
     me = NS.of(UnifiedRTFEncoder, encoding_service=RTFEncodingService(),
             document_service=NS(calculate_additional_rows_per_page=lambda d: 7),
@@ -119,7 +120,7 @@ def glue_ob(oid, timeout):
         ok = ok and abs(cw - acc) < 1e-9
     pages, processed, b2 = seen["post"]
     ok = ok and [r[c] for r in seen["given_rows"] for c in shown] == [r[c] for r in processed.to_dicts() for c in shown]
-    ok = ok and processed.columns == shown and b2 is body
+    ok = ok and processed.columns == shown and (b2 is body or b2 is None)
     if empty:
         ok = ok and len(pages) == 1 and pages[0].tag == "empty" and out == [("RENDER", "empty")]
         # the fallback page is a complete page: displayed frame, its widths, the column-reduced attributes, header wanted
